@@ -394,6 +394,56 @@ mod verif_cex_history {
         }
     }
 
+    // C16 (strict mode never rejects a valid commit) / C05: a three-level bucket is drained from the front, ONE transaction per
+    // drain length (every length 1..130, and all / all but one key): leaves merge away, an interior branch is left with a single
+    // short leaf.  Under strict mode the commit must succeed, DB::check() must pass and the contents must be the model's
+    fn run_fifo_drain(ps: u64, strict: bool, m: u32) -> Result<(), String> {
+        let p = std::env::temp_dir().join(format!("jammdb-cex-drain-{}-{}-{}-{}.db", ps, strict, m, std::process::id()));
+        let _ = std::fs::remove_file(&p);
+        let res = (|| {
+            let what = format!("shape: bucket `q` with 600 keys of 146-byte values (page size {}, strict mode {}); ONE transaction deletes the first {} keys", ps, strict, m);
+            let db = OpenOptions::new().pagesize(ps).strict_mode(strict).open(&p).map_err(|e| format!("open: {:?}", e))?;
+            let key = |i: u32| format!("k{:07}", i).into_bytes();
+            let mut mdl = MB::default();
+            {
+                let tx = db.tx(true).unwrap();
+                let b = tx.create_bucket("q").unwrap();
+                let mut bm = MB::default();
+                for i in 0..600u32 { let v = vec![b'q'; 146]; b.put(key(i), v.clone()).unwrap(); bm.items.insert(key(i), M::Kv(v)); bm.next_int += 1; }
+                mdl.items.insert(b"q".to_vec(), M::B(bm));
+                tx.commit().map_err(|e| format!("{}: the filling commit fails: {:?}", what, e))?;
+            }
+            {
+                let tx = db.tx(true).unwrap();
+                { let b = tx.get_bucket("q").unwrap(); let bm = model_at(&mut mdl, &[b"q".to_vec()]); for i in 0..m { b.delete(key(i)).map_err(|e| format!("{}: delete fails: {}", what, kind(&e)))?; bm.items.remove(&key(i)); } }
+                tx.commit().map_err(|e| format!("{}: a VALID commit is rejected: {:?}", what, e))?;
+            }
+            db.check().map_err(|e| format!("{}: DB::check() fails: {:?}", what, e))?;
+            read_all(&db, &mdl, &what)?;
+            Ok(())
+        })();
+        let _ = std::fs::remove_file(&p);
+        res
+    }
+
+    #[test]
+    fn cex_history_fifo_drain() {
+        for ps in [1024u64, 1032] {
+            for strict in [true, false] {
+                let mut ms: Vec<u32> = (1..=130).collect();
+                ms.extend([300, 599, 600]);
+                for m in ms {
+                    if !strict && m % 2 == 0 && m < 599 { continue; }
+                    match std::panic::catch_unwind(|| run_fifo_drain(ps, strict, m)) {
+                        Ok(Ok(())) => {}
+                        Ok(Err(e)) => { println!("CEX history (C16 / C05): {}", e); panic!("drain mismatch"); }
+                        Err(_) => { println!("CEX history (C01 nothing panics): fifo drain at page size {} strict {} length {} panicked", ps, strict, m); panic!("drain panic"); }
+                    }
+                }
+            }
+        }
+    }
+
     #[test]
     fn cex_history_deep_shapes() {
         for (lo, hi) in [(0u32, 280u32), (150, 450), (300, 600), (450, 750), (600, 900), (900, 1200), (1200, 1500), (100, 1400)] {
